@@ -154,6 +154,14 @@ class _MapBuilder:
     )
 
 
+def _is_hashable(value):
+  try:
+    hash(value)
+  except TypeError:
+    return False
+  return True
+
+
 class _Stack:
   """A simple opcode stack."""
 
@@ -183,27 +191,40 @@ class _Stack:
       self._preserve_constant(c)
     self.stack = []
 
-  def _pop_args(self, n):
-    """Try to get n args off the stack for a BUILD call."""
+  def _pop_args(self, n, keys=()):
+    """Try to get n args off the stack for a BUILD call.
+
+    Args:
+      n: The number of args.
+      keys: Offsets from the top of the stack of the args that are dict keys.
+
+    Returns:
+      The args, top of the stack first, or None if they cannot be folded.
+    """
     if len(self.stack) < n:
       # We have started a new block in the middle of constructing a literal
       # (e.g. due to an inline function call). Clear the stack, since the
       # literal is not constant.
       self.clear()
       return None
-    elif n and any(x is None for x in self.stack[-n:]):
-      # We have something other than constants in the arg list. Pop all the args
-      # for this op off the stack, preserving constants.
+    elif n and (
+        any(x is None for x in self.stack[-n:])
+        or not all(_is_hashable(self.stack[-1 - k].value) for k in keys)
+    ):
+      # We have something other than constants in the arg list, or a key that is
+      # not hashable (e.g. {[1]: 2}, which is a runtime error and not a literal
+      # constant). Pop all the args for this op off the stack, preserving
+      # constants.
       for _ in range(n):
         self._preserve_constant(self.pop())
       return None
     else:
       return [self.pop() for _ in range(n)]
 
-  def fold_args(self, n, op):
+  def fold_args(self, n, op, keys=()):
     """Collect the arguments to a build call."""
     ret = _CollectionBuilder()
-    args = self._pop_args(n)
+    args = self._pop_args(n, keys)
     if args is None:
       self.push(None)
       return None
@@ -216,7 +237,7 @@ class _Stack:
   def fold_map_args(self, n, op):
     """Collect the arguments to a BUILD_MAP call."""
     ret = _MapBuilder()
-    args = self._pop_args(2 * n)
+    args = self._pop_args(2 * n, keys=range(1, 2 * n, 2))
     if args is None:
       self.push(None)
       return None
@@ -361,7 +382,7 @@ class _FoldConstants(pyc.CodeVisitor):
             elements = lst.elements + other_elts
             stack.push(_Constant(typ, value, elements, op))
         elif isinstance(op, opcodes.MAP_ADD):
-          elements = stack.fold_args(3, op)
+          elements = stack.fold_args(3, op, keys=(1,))
           if elements:
             map_, key, val = elements.elements
             tag, (kt, vt) = map_.typ
